@@ -331,6 +331,12 @@ def to_vtl_json(
     _components.extend(structure.components.attributes)
 
     for c in _components:
+        if c.dtype not in VTL_DTYPES_MAPPING:
+            # e.g. XHTML, GeospatialInformation: no VTL type corresponds to them
+            raise InputValidationException(
+                f"Component '{c.id}' of structure '{structure.id}' has SDMX data type "
+                f"'{c.dtype}', which has no VTL equivalent."
+            )
         _type = VTL_DTYPES_MAPPING[c.dtype]
         _nullability = c.role != SDMX_Role.DIMENSION
         _role = VTL_ROLE_MAPPING[c.role]
